@@ -3,6 +3,9 @@
 #include "../engine/lib_fa.hh"
 #include <vata/incl_param.hh>
 
+#include <dirent.h>
+#include <fstream>
+
 const char* const harness::ID = "C09";
 
 using VATA::ExplicitFiniteAut;
@@ -24,10 +27,67 @@ InclParam param(const Sel& s)
 	return ip;
 }
 
+// repository word automata (tests/fa_timbuk_armc, files up to 60 kB): the three selections must agree with
+// each other and - whenever the reference terminates within its cap - with the reference
+void corpus_case(const eng::Raw& raw, eng::Ctx& ctx)
+{
+	const eng::Rec h = raw.empty() ? eng::Rec{} : raw[0];
+	const char* repo = getenv("VERIF_REPO");
+	const std::string dir = std::string(repo ? repo : "/repo") + "/tests/fa_timbuk_armc";
+	std::vector<std::string> files;
+	if (DIR* dp = opendir(dir.c_str())) {
+		while (dirent* e = readdir(dp)) {
+			if (e->d_name[0] == '.') continue;
+			std::ifstream is(dir + "/" + e->d_name, std::ios::ate);
+			if (is && is.tellg() < 60000) files.push_back(dir + "/" + e->d_name);
+		}
+		closedir(dp);
+	}
+	std::sort(files.begin(), files.end());
+	if (files.size() < 2) { ctx.machinery_error("repository word automata not found"); return; }
+	const std::string f1 = files[h[1] % files.size()], f2 = files[h[2] % files.size()];
+	ctx.describe("corpus " + f1 + " <= " + f2);
+	ctx.tag("source:repository-corpus");
+	ctx.small_case(false);
+	auto slurp = [](const std::string& p) { std::ifstream is(p); std::stringstream ss; ss << is.rdbuf(); return ss.str(); };
+	ExplicitFiniteAut a, b;
+	ref::NFA ra, rb;
+	{
+		eng::LibSection ls(ctx, "fa-corpus:load");
+		VATA::Parsing::TimbukParser parser;
+		a.LoadFromString(parser, slurp(f1));
+		b.LoadFromString(parser, slurp(f2));
+		VATA::Serialization::TimbukSerializer ser;
+		dump::Names na, nb;
+		std::map<std::string,int> syms;      // one symbol table for both operands
+		ra = dump::to_nfa(dump::parse(a.DumpToString(ser)), na, true, &syms);
+		rb = dump::to_nfa(dump::parse(b.DumpToString(ser)), nb, true, &syms);
+	}
+	ref::NfaInclResult expect = ref::nfa_included(ra, rb, 150000);
+	ctx.nontrivial(!ra.empty_lang() && !rb.empty_lang());
+	int first = -1;
+	for (const Sel& s : SELS) {
+		bool got;
+		{
+			eng::LibSection ls(ctx, std::string("fa-corpus:incl:") + s.name);
+			ExplicitFiniteAut sm(a), bg(b);
+			VATA::AutBase::SanitizeAutsForInclusion(sm, bg);
+			got = ExplicitFiniteAut::CheckInclusion(sm, bg, param(s));
+		}
+		ctx.count("verdicts");
+		if (expect.verdict != ref::Tri::UNKNOWN && got != (expect.verdict == ref::Tri::YES))
+			ctx.fail(std::string("fa-incl:") + s.name + (got ? ":false-positive" : ":false-negative"), std::string(s.name) + " disagrees with the reference on repository automata");
+		if (first < 0) first = got ? 1 : 0;
+		else if ((first == 1) != got) ctx.fail(std::string("fa-incl:") + s.name + ":disagrees-with-antichains", "selections disagree on repository automata");
+	}
+	if (expect.verdict == ref::Tri::UNKNOWN) ctx.tag("corpus:reference-inconclusive");
+}
+
 } // namespace
 
 void harness::run_case(const eng::Raw& raw, eng::Ctx& ctx)
 {
+	if (!raw.empty() && raw[0][0] % 64 == 63) { corpus_case(raw, ctx); return; }
 	const int maxStates = ctx.tier() ? 7 : 5;
 	//                          indep sup abl split symmiss degen
 	const std::vector<int> w = {4,    2,  4,  4,    1,      1};
